@@ -331,6 +331,16 @@ macro_rules! cap_type {
         }
     };
 }
+/// a capture whose destructor reports itself: what a closure owns must be dropped exactly once when
+/// the closure is consumed (it ran to its end, or spawn failed and gave it up)
+struct Token {
+    k: u32,
+}
+impl Drop for Token {
+    fn drop(&mut self) {
+        Ev::new("tokdrop").u("k", self.k as u64).emit();
+    }
+}
 cap_type!(C16, 16);
 cap_type!(C32, 32);
 cap_type!(C64, 64);
@@ -586,6 +596,7 @@ fn spawn_t<T: Tagged>(p: ThreadPlan) -> Option<JoinHandle<T>> {
         .s("ty", T::NAME)
         .s("fin", if p.panic { "panic" } else { "ret" })
         .u("party", p.party as u64)
+        .u("ck", p.ck as u64)
         .emit();
     macro_rules! with_cap {
         ($ty:ident, $al:literal) => {{
@@ -599,6 +610,14 @@ fn spawn_t<T: Tagged>(p: ThreadPlan) -> Option<JoinHandle<T>> {
         }};
     }
     let r = match p.ck {
+        1 => {
+            let tok = Token { k: p.k };
+            tiny_std::thread::spawn(move || {
+                let v = body::<T>(p);
+                core::hint::black_box(&tok);
+                v
+            })
+        }
         16 => with_cap!(C16, 16),
         32 => with_cap!(C32, 32),
         64 => with_cap!(C64, 64),
@@ -836,7 +855,7 @@ fn h_batch(n: u32, seed: u64, conc: u32, panic_pct: u32, drop_pct: u32, types: u
         // kinds that hold a process-wide print lock are left to their own runs
         let pk = [0u8, 3, 4, 5, 6, 7, 8, 9][rng.below(8) as usize];
         let wk = [0u8, 0, 0, 0, 3, 4, 1, 2][rng.below(8) as usize];
-        let ck = [0u16, 0, 16, 32, 64, 0][rng.below(6) as usize];
+        let ck = [0u16, 1, 16, 32, 64, 0][rng.below(6) as usize];
         let plan = ThreadPlan { k, party: 0, panic: rng.below(100) < panic_pct, pre, gate: false, hgate: false, pk, wk, ck };
         let Some(h) = spawn_any(ty, plan) else { continue };
         if used == conc {
